@@ -221,8 +221,8 @@ def w_errors(ctx, rng, i):
     x = make_field(rng, 40, int(rng.integers(1, 3)), True, 0.01)
     BW = 0.3 * T.gv.fs
     with core.quiet():
-        ctx.raises("errors", TypeError, D.PD, T.electrical_signal(np.ones(40)), BW)
-        ctx.raises("errors", TypeError, D.PD, np.ones(40, complex), BW)
+        ctx.probe("pd.electrical_input", D.PD, T.electrical_signal(np.ones(40)), BW)        # (probe: the statement names invalid r, T, R_load, include_noise only)
+        ctx.probe("pd.ndarray_input", D.PD, np.ones(40, complex), BW)
         for bad in (0, -0.5, 1.0001, 2, float(-rng.uniform(0, 3))):
             ctx.raises("errors", ValueError, D.PD, x, BW, bad)
         ctx.raises("errors", TypeError, D.PD, x, BW, "1")
